@@ -208,12 +208,38 @@ def PathN (succ : Id → List Id) : Nat → Id → Id → Prop
 theorem filterForLineage_sub (m : LMap) (l : List Id) (a : String) (b : Bool) (l' : List Id)
     (h : filterForLineage m l a b = .ok l') : ∀ x ∈ l', x ∈ l := by
   unfold filterForLineage at h
-  simp only [bind, Except.bind, pure, Except.pure] at h
   split at h
-  · simp at h
-  · simp only [Except.ok.injEq] at h
-    subst h
-    intro x hx; exact (List.mem_filter.mp hx).1
+  · simp only [bind, Except.bind, pure, Except.pure] at h
+    split at h
+    · simp at h
+    · simp only [Except.ok.injEq] at h
+      subst h
+      intro x hx; simp at hx
+  · simp only [bind, Except.bind, pure, Except.pure] at h
+    split at h
+    · simp at h
+    · simp only [Except.ok.injEq] at h
+      subst h
+      intro x hx; exact (List.mem_filter.mp hx).1
+
+/-- when the names `against` stands for resolve, `filter_for_lineage` is the filter (also for an empty
+    target list, where the implementation does not even resolve them) -/
+theorem filterForLineage_of_shares (m : LMap) (l : List Id) (a : String) (b : Bool) (shares : List Id)
+    (h : resolveShares m resolveFuel a = .ok shares) :
+    filterForLineage m l a b = .ok (l.filter (fun t => sharesLineage m t shares b)) := by
+  unfold filterForLineage
+  split
+  · rename_i he
+    have hl : l = [] := by simpa using he
+    subst hl
+    unfold resolveFuel resolveShares at h
+    simp only [bind, Except.bind] at h
+    have e : resolveFuel - 1 = 11 := by decide
+    rw [e]
+    cases hr : resolveRevisionNumber m 11 a with
+    | error e => simp [hr] at h
+    | ok v => simp [bind, Except.bind, pure, Except.pure]
+  · simp [h, bind, Except.bind, pure, Except.pure]
 
 theorem children_single {children : List Id} {nxt : Option Id} {mk : Bool}
     (h : (match children with
